@@ -76,6 +76,10 @@ class Driver:
         outs = []
         if obj is None:
             return outs
+        try:
+            self.A.angular_typecheck(obj)
+        except Exception:
+            pass
         for m in self.methods[type(obj).__name__]:
             try:
                 r = getattr(obj, m)()
@@ -216,6 +220,21 @@ def run_shard(spec, ctx):
             for M in range(60):
                 drv.drive(1, D, M, Fraction(0), 'D.MM00>=360')
                 drv.drive(-1, D, M, Fraction(0), 'D.MM00>=360')
+        hps, decs = [], []
+        for D in range(spec['lo'], spec['hi']):
+            for M in range(60):
+                for S in (0, rnd.randint(1, 59)):
+                    deg = Fraction(D) + Fraction(M, 60) + Fraction(S, 3600)
+                    hps.append(ax.hp_make(deg, 8)[1])
+                    decs.append(float(deg))
+                # one nano-arc-second (1e-8" beyond 512 deg) below the whole minute
+                hps.append(ax.hp_make(Fraction(D) + Fraction(M, 60) - Fraction(1, 3600 * 10 ** 8), 8)[1])
+        for chunk in range(0, len(hps), 2000):
+            drv.mon.call_hp2dec_v(hps[chunk:chunk + 2000])
+            drv.mon.call_hp2dec_v([-h for h in hps[chunk:chunk + 2000]])
+        for chunk in range(0, len(decs), 2000):
+            drv.mon.call_dec2hp_v(decs[chunk:chunk + 2000])
+            drv.mon.call_dec2hp_v([-d for d in decs[chunk:chunk + 2000]])
         ctx.sample({'kind': 'whole-second lattice 360..719 (stride)', 'lo': spec['lo'], 'hi': spec['hi'], 'stride': spec['stride']})
     elif kind == 'ambient':
         # the repository's own tests with every conversion monitored: realistic call patterns, and a guard against monitors
